@@ -7,9 +7,11 @@
    marker only on an empty square behind an enemy pawn on its double-step rank): C06_playable, C06_builder_playable,
    via the bridge theorem bitboard attack test = mailbox attack test (attacked_by_bridge).
    Every canonical FEN of a board with the placement invariant, consistent hash and passing validation is
-   accepted and parses back to it (C06_canonical_accepted). *)
+   accepted and parses back to it (C06_canonical_accepted); in particular the canonical FEN of EVERY legally
+   reachable position (clocks within four digits) is accepted (C06_reachable_accepted), and every reachable board
+   passes Board::validate (C06_reachable_valid). *)
 From Coq Require Import NArith List Bool.
-From Chess Require Import base.Bits base.Types base.BitBoard model.Board model.Fen spec.Rules proofs.FenFacts proofs.BridgeFacts proofs.PlayableFacts proofs.FenRoundTrip.
+From Chess Require Import base.Bits base.Types base.BitBoard model.Board model.Fen spec.Rules proofs.FenFacts proofs.BridgeFacts proofs.PlayableFacts proofs.FenRoundTrip proofs.Reachable proofs.ReachableMore.
 Import ListNotations.
 Local Open Scope N_scope.
 
@@ -62,3 +64,12 @@ Theorem C06_canonical_accepted : forall b b0, b = update_pin_info b0 -> FenRound
   b_zob b = FenRoundTrip.scratch_piece_hash b -> validate b = None -> parse_fen (write_fen b) = Some b.
 Proof. exact write_parse_roundtrip_built. Qed.
 Print Assumptions C06_canonical_accepted.
+
+Theorem C06_reachable_accepted : forall b, Reachable b -> b_half b <= 9999 -> b_full b <= 9999 ->
+  parse_fen (write_fen b) = Some b.
+Proof. exact roundtrip_reachable. Qed.
+Print Assumptions C06_reachable_accepted.
+
+Theorem C06_reachable_valid : forall b, Reachable b -> validate b = None.
+Proof. exact validate_reachable. Qed.
+Print Assumptions C06_reachable_valid.
